@@ -27,7 +27,7 @@ import (
 	pbv2 "github.com/libp2p/go-libp2p/p2p/protocol/circuitv2/pb"
 )
 
-func vfC11DirectCfg(name string, links map[string][]string) *vfC11Cfg {
+func vfC11DirectCfg(name string, links map[string][]any) *vfC11Cfg {
 	return &vfC11Cfg{Name: name, Links: links, MaxRes: 4, MaxPerIP: 2, MaxPerASN: 2, MaxCirc: 2, TTL: 120, GCP: 2,
 		Limited: true, DataLimit: 1 << 17, Duration: 4, HSTimeout: 2, MaxAtt: 1, Buf: 2048}
 }
@@ -72,7 +72,7 @@ func (s *vfC11Sys) send(a *vfC11Att, dir string, n, chunk int) {
 func vfC11ForwardCase(t *testing.T, out *vfh.Result, limit int, dirs string, size, chunk int) {
 	synctest.Test(t, func(t *testing.T) {
 		cfg := vfC11DirectCfg(fmt.Sprintf("forward limit=%d dirs=%s size=%d chunk=%d", limit, dirs, size, chunk),
-			map[string][]string{"a1": {"p1", "ip1"}, "a2": {"p2", "ip2"}})
+			map[string][]any{"a1": {"p1", "ip1", false}, "a2": {"p2", "ip2", false}})
 		cfg.DataLimit = limit
 		s, err := vfC11NewSys(cfg, out)
 		if err != nil {
@@ -126,7 +126,7 @@ func vfC11ForwardCase(t *testing.T, out *vfh.Result, limit int, dirs string, siz
 
 func vfC11DurationCase(t *testing.T, out *vfh.Result, busy bool) {
 	synctest.Test(t, func(t *testing.T) {
-		cfg := vfC11DirectCfg(fmt.Sprintf("duration busy=%v", busy), map[string][]string{"a1": {"p1", "ip1"}, "a2": {"p2", "ip2"}})
+		cfg := vfC11DirectCfg(fmt.Sprintf("duration busy=%v", busy), map[string][]any{"a1": {"p1", "ip1", false}, "a2": {"p2", "ip2", false}})
 		s, err := vfC11NewSys(cfg, out)
 		if err != nil {
 			t.Fatalf("setup: %v", err)
@@ -189,9 +189,9 @@ func vfC11BurstRound(t *testing.T, out *vfh.Result, seed int64) {
 		g := vfC11G
 		rnd := rand.New(rand.NewSource(seed))
 		const N = 10
-		links := map[string][]string{}
+		links := map[string][]any{}
 		for i := 1; i <= N; i++ {
-			links[fmt.Sprintf("d%02d", i)] = []string{fmt.Sprintf("p%d", i), fmt.Sprintf("x%d", (i+1)/2)}
+			links[fmt.Sprintf("d%02d", i)] = []any{fmt.Sprintf("p%d", i), fmt.Sprintf("x%d", (i+1)/2), false}
 		}
 		cfg := vfC11DirectCfg(fmt.Sprintf("burst seed=%d", seed), links)
 		cfg.MaxRes, cfg.MaxPerIP, cfg.MaxCirc = 2+rnd.Intn(4), 1+rnd.Intn(2), 1+rnd.Intn(3)
